@@ -326,6 +326,10 @@ func Types(level int, decode bool) []reflect.Type {
 		add(reflect.MapOf(k, TInt))
 		add(reflect.MapOf(k, TIface))
 	}
+	if !decode {
+		// json.Number as a key: a string type whose values are written as numbers everywhere else
+		add(reflect.MapOf(TNumber, TInt))
+	}
 	if decode {
 		// key types that cannot hold an object key in encoding/json (a pointer key once received the key's
 		// number as its address)
